@@ -251,6 +251,82 @@ def c06 (cfg : Cfg) (op : Op) (o : OpObs) : Bool :=
         | .rut _, .err .timeout => false
         | _, _ => true)
 
+/-! ### C05 -/
+
+/-- a registration as the monitor sees it: the data received since it was made -/
+structure Reg where
+  id : Nat
+  pat : Pat
+  exc : Nat
+  since : Bytes := []
+  fired : Bool := false        -- its first occurrence has been completed (and reported)
+  deriving Repr, Inhabited
+
+structure DeathMon where
+  regs : List Reg := []
+  frames : List Nat := []
+  next : Nat := 0
+  deriving Repr, Inhabited
+
+def Reg.occurs (r : Reg) : Bool := (r.pat.search r.since).isSome
+
+/-- does a raised death exception `(e, m)` belong to a registration whose string has occurred? -/
+def justified (regs : List Reg) (e : Nat) (m : Bytes) : Bool :=
+  regs.any fun r => r.exc == e && r.occurs &&
+    (match r.pat with | .lit b => m == b | .re _ => true)
+
+def deathOf : OpRes → Option (Nat × Bytes)
+  | .err (.death e m) => some (e, m)
+  | .chunks _ (some (.death e m)) => some (e, m)
+  | _ => none
+
+/-- walk through the deliveries of one operation -/
+def c05Walk (res : OpRes) : List Bytes → List Reg → Bool × List Reg
+  | [], regs => ((deathOf res).isNone, regs)
+  | d :: ds, regs =>
+    let regs := regs.map fun r => { r with since := r.since ++ d }
+    let due := regs.any fun r => !r.fired && r.occurs
+    if due then
+      -- a first occurrence was completed by this delivery: it is the last one of the
+      -- operation and the operation raises the exception of a string that has occurred
+      let ok := ds.isEmpty && (match deathOf res with
+        | some (e, m) => justified regs e m
+        | none => false)
+      (ok, regs.map fun r => { r with fired := r.fired || r.occurs })
+    else if ds.isEmpty then
+      ((match deathOf res with
+        | some (e, m) => justified regs e m      -- only strings that occurred may fire
+        | none => true), regs)
+    else c05Walk res ds regs
+
+def isReadOp : Op → Bool
+  | .read _ _ | .readIter _ _ _ | .readline _ _ | .expect _ _ | .rup _ _ | .rut _ => true
+  | .send _ rb _ _ | .sendline _ rb _ => rb
+  | _ => false
+
+def c05 (m : DeathMon) (op : Op) (o : OpObs) : Bool × DeathMon :=
+  match op with
+  | .deathEnter p e =>
+    (true, { regs := { id := m.next, pat := p, exc := e } :: m.regs, frames := m.next :: m.frames,
+             next := m.next + 1 })
+  | .deathAdd p e => (true, { m with regs := { id := m.next, pat := p, exc := e } :: m.regs, next := m.next + 1 })
+  | .deathExit =>
+    match m.frames with
+    | [] => (true, m)
+    | id :: fs => (true, { m with regs := m.regs.filter (·.id != id), frames := fs })
+  | _ =>
+    if isReadOp op then
+      let (ok, regs) := c05Walk o.res (delivered o) m.regs
+      (ok, { m with regs := regs })
+    else ((deathOf o.res).isNone, m)
+
+def foldOpsM {σ} (f : σ → Op → OpObs → Bool × σ) : σ → List Op → List OpObs → Bool
+  | _, [], [] => true
+  | st, op :: ops, o :: os =>
+    let (ok, st') := f st op o
+    ok && foldOpsM f st' ops os
+  | _, _, _ => false
+
 /-- whole case: every byte handed out by the transport plus what is left is the stream -/
 def conservation (c : Case) (obs : List OpObs × Bytes) : Bool :=
   ((obs.1.map fun o => (delivered o).flatten).flatten ++ obs.2) == (c.script.map (·.data)).flatten
@@ -267,6 +343,7 @@ def C02 (c : Case) (obs : List OpObs × Bytes) : Bool := foldOps c02 (initCfg c)
 def C03 (c : Case) (obs : List OpObs × Bytes) : Bool :=
   foldOps (fun cfg op o => c03 cfg op o && c03Sizes cfg op o) (initCfg c) c.ops obs.1 && conservation c obs
 def C04 (c : Case) (obs : List OpObs × Bytes) : Bool := foldOps (fun _ => c04) (initCfg c) c.ops obs.1
+def C05 (c : Case) (obs : List OpObs × Bytes) : Bool := foldOpsM c05 {} c.ops obs.1
 def C06 (c : Case) (obs : List OpObs × Bytes) : Bool := foldOps c06 (initCfg c) c.ops obs.1
 
 end Spec
